@@ -1,6 +1,7 @@
 package lint
 
 import (
+	"go/constant"
 	"fmt"
 	"go/types"
 	"sort"
@@ -883,6 +884,24 @@ func (m *Model) tombParamFromDeletionFlag(dw *docWrite, val, tomb *sqlp.Expr) (b
 		// maybe a direct bool field
 		if b2, f, ok := fieldLoad(rt); ok && types.Identical(f.Type(), types.Typ[types.Bool]) && sameValue(b2, base) {
 			return true, "flag is the event's own bool field"
+		}
+		// a helper / ternary call fed by the event's deletion field
+		if call, ok := rt.(*ssa.Call); ok {
+			ftab, _ := m.eventFieldTable()
+			if flag := ftab["tombstone"]; flag != nil {
+				fromSame := false
+				for _, a := range call.Common().Args {
+					if b2, f, ok := fieldLoad(a); ok && f == flag && sameValue(b2, base) {
+						fromSame = true
+					}
+				}
+				if cv, ok := m.constSelectedOnTrue(rt, flag, 0); ok && fromSame {
+					if n, exact := constant.Int64Val(constant.ToInt(cv)); exact && n == 1 {
+						return true, "flag is 1 exactly when the event's " + flag.Name() + " field is set (same event object as the body)"
+					}
+					return false, "flag is not 1 when the event's " + flag.Name() + " field is set"
+				}
+			}
 		}
 		return false, "the flag is not selected by a branch on the event's deletion field"
 	}
